@@ -16,8 +16,8 @@
   * `C19_statement`     — the full statement (false today: `C19_statement_fails_today`);
     `C19_partial`       — the statement for declarations that avoid exactly the listed finding rows;
     `unsafe_rows_have_counterexamples` — for EVERY unsafe in-scope row of the table a kernel-checked history
-                          (operation, one poke, observation differs); `oneOf_retains_argument` is one of them
-                          written out.  `fixed_rows_*`, `fast_serialization_fresh_today`: the rows repaired by
+                          (operation, one poke, observation differs); `anyOf_misfit_hands_out_stored` is one of them
+                          written out; `oneOf_keeps_a_copy_today`: a former one, now positive.  `fixed_rows_*`, `fast_serialization_fresh_today`: the rows repaired by
                           typedpy commits 5e8a8ad / d7f6fe4 now carry positive theorems.
 -/
 import TypedpyModel.Lemmas.Alias
@@ -547,54 +547,57 @@ theorem reachList_sound (h : Heap) : ∀ (n : Nat) (i : Item) (b : Nat), b ∈ r
           | refl => exact base
           | step _ hk' ih' => exact Reach.step ih' hk'
 
-/-- an open finding as an explicit history: constructing with `OneOf[Array[Integer], …]` keeps the caller's
-    list (cell 1, which the caller reaches from the kwargs it passed, cell 0); clearing that list afterwards
-    empties the new instance's field -/
-theorem oneOf_retains_argument :
+/-- a former explicit counterexample, now positive (typedpy commit 95931f6): constructing with
+    `OneOf[Array[Integer], …]` no longer keeps the caller's list (cell 1) — clearing that list afterwards leaves the new
+    instance as it was -/
+theorem oneOf_keeps_a_copy_today :
     let s := Shape.keyed .root [("f", .wrap .oneOf (.coll .array (.scalar .number)))]
     let out := transfer (modeOf Generated.aliasing .construct) 5 s witnessHeap (.ref 0)
     ∃ inst, out.2 = some inst ∧
-      Held out.1 [0] 1 ∧
-      observeN 3 (runScript out.1 [0] [.write 1 ⟨"list", []⟩]).1 inst ≠ observeN 3 out.1 inst := by
-  refine ⟨.ref 2, by decide +kernel, reachList_sound _ 3 (.ref 0) 1 (by decide +kernel), ?_⟩
-  intro h
-  have : (observeN 3 (runScript (transfer (modeOf Generated.aliasing .construct) 5
-      (Shape.keyed .root [("f", .wrap .oneOf (.coll .array (.scalar .number)))]) witnessHeap (.ref 0)).1 [0]
-      [.write 1 ⟨"list", []⟩]).1 (.ref 2)).beq
-      (observeN 3 (transfer (modeOf Generated.aliasing .construct) 5
-      (Shape.keyed .root [("f", .wrap .oneOf (.coll .array (.scalar .number)))]) witnessHeap (.ref 0)).1 (.ref 2)) = false := by
-    decide +kernel
-  rw [h] at this
-  revert this
+      (reachList 4 out.1 inst).contains 1 = false ∧
+      (observeN 3 (runScript out.1 [0] [.write 1 ⟨"list", []⟩]).1 inst).beq (observeN 3 out.1 inst) = true := by
+  refine ⟨.ref 3, by decide +kernel, by decide +kernel, by decide +kernel⟩
+
+/-- OneOf / AllOf over every kind of container option (and with ALL their options): the statement holds today for
+    construction and assignment -/
+def oneOfShape : Shape :=
+  .keyed .root [("a", .wrapN .oneOf .firstFit [.coll .array (.scalar .number), .coll .map (.coll .array (.scalar .number)), .scalar .string]),
+                ("b", .wrapN .allOf .firstFit [.coll .array (.scalar .number)]),
+                ("c", .wrapN .oneOf .firstFit [.keyed .inline [("x", .scalar .number), ("l", .coll .array (.scalar .number))], .scalar .string]),
+                ("d", .coll .array (.wrapN .oneOf .firstFit [.wrapN .anyOf .firstFit [.coll .array (.scalar .number), .scalar .string], .scalar .number]))]
+
+theorem oneOf_allOf_fresh_today :
+    HoldsFor Generated.aliasing .construct oneOfShape ∧
+    HoldsFor Generated.aliasing .setattr (.wrapN .oneOf .firstFit [.coll .array (.scalar .number), .scalar .string]) ∧
+    HoldsFor Generated.aliasing .setattr (.wrapN .allOf .firstFit [.coll .map (.coll .array (.scalar .number))]) :=
+  ⟨C19_today _ _ (by decide +kernel), C19_today _ _ (by decide +kernel), C19_today _ _ (by decide +kernel)⟩
+
+/-- an open finding as an explicit history: `AnyOf[Array[Integer], Enum(values=…)]`; `<field>.serialize` of the stored
+    list (cell 1, which the instance, cell 0, refers to) hands the value to the Enum option, which returns it: the
+    "document" IS cell 1, and emptying it empties the instance's field -/
+def misfitShape : Shape := .wrapN .anyOf (.fixed 1) [.coll .array (.scalar .number), .scalar .enum]
+
+theorem anyOf_misfit_hands_out_stored :
+    let out := transfer (modeOf Generated.aliasing .fieldSerialize) 5 misfitShape witnessHeap (.ref 1)
+    out.2 = some (.ref 1) ∧
+      (runScript out.1 [1] [.write 1 ⟨"list", []⟩]).1.cells 1 ≠ witnessHeap.cells 1 ∧
+      (observeN 3 (runScript out.1 [1] [.write 1 ⟨"list", []⟩]).1 (.ref 0)).beq (observeN 3 out.1 (.ref 0)) = false := by
+  refine ⟨by decide +kernel, by decide +kernel, by decide +kernel⟩
+
+/-- the unsafe in-scope rows of today's table are exactly the listed ones -/
+theorem only_listed_rows_unsafe_today :
+    (Generated.aliasing.filter fun r => !r.safe && r.inScope).map (fun r => (r.op, r.kind, r.cat)) = knownRows := by
   decide +kernel
 
-theorem witnessHeap_closed : ClosedBelow witnessHeap.next witnessHeap := by
-  intro a ha k hk
-  have : a = 0 ∨ a = 1 := by
-    have : a < 2 := ha
-    omega
-  cases this with
-  | inl e =>
-    subst e
-    simp [witnessHeap, Heap.ofList, Cell.kids, Item.addr?] at hk
-    subst hk; decide
-  | inr e =>
-    subst e
-    simp [witnessHeap, Heap.ofList, Cell.kids, Item.addr?] at hk
-
-/-- the full statement is still false of today's code (OneOf / AllOf) -/
+/-- the full statement is still false of today's code (the misfit delegation of `AnyOf.serialize`) -/
 theorem C19_statement_fails_today : ¬ C19_statement Generated.aliasing := by
   intro st
-  have hf := st .construct (Shape.keyed .root [("f", .wrap .oneOf (.coll .array (.scalar .number)))])
-    (by decide +kernel) 5 witnessHeap (.ref 0) _ _ rfl
-  obtain ⟨inst, hres, held, ne⟩ := oneOf_retains_argument
-  apply ne
-  refine (hf.2 inst hres).2 witnessHeap_closed [0] ?_ [.write 1 ⟨"list", []⟩] ?_ 3
-  · intro x hx
-    simp only [List.mem_singleton] at hx
-    subst hx; decide
-  · simp only [AdmissibleAll, Admissible, and_true]
-    exact ⟨held, fun k hk => by simp [Cell.kids] at hk⟩
+  have hf := st .fieldSerialize misfitShape (by decide +kernel) 5 witnessHeap (.ref 1) _ _ rfl
+  obtain ⟨hres, hne, _⟩ := anyOf_misfit_hands_out_stored
+  apply hne
+  refine (hf.2 (.ref 1) hres).1 [.write 1 ⟨"list", []⟩] ?_ 1 (by decide)
+  simp only [AdmissibleAll, Admissible, and_true]
+  refine ⟨⟨1, by simp [roots], Reach.refl _⟩, fun k hk => by simp [Cell.kids] at hk⟩
 
 /-- what was the flagship finding now holds: fast serialization (and `<field>.serialize`) of scalar-item
     and untyped collections — Array[Integer], Array[String], untyped Array / Deque / Map, also nested — is
@@ -814,12 +817,12 @@ def oneOpts : Shape :=
 
 /-- non-vacuity, kernel-evaluated on today's table: the elements of ONE list take different options of
     `OneOf[Array, Map, String]` (the list the first, the dict the second, the string the third); under construction
-    today's OneOf keeps both containers (cells 2 and 3, and cell 4 below the dict) — and the very same declaration owned by
-    an ImmutableStructure keeps nothing of the caller's (7 fresh cells: the copy and what the fields rebuilt from it) -/
+    today's OneOf keeps none of the caller's containers (each option stores its own copy), on a plain Structure as well
+    as owned by an ImmutableStructure -/
 theorem wrapN_owned_example :
     (match transfer (modeOf Generated.aliasing .construct) 9 (.keyed .root [("xs", .coll .array oneOpts)]) hetHeap (.ref 0) with
-     | (h', some res) => sameBelow 5 hetHeap h' && (reachList 6 h' res).contains 2 && (reachList 6 h' res).contains 3
-                          && (reachList 6 h' res).contains 4 && !(reachList 6 h' res).contains 1
+     | (h', some res) => sameBelow 5 hetHeap h' && (reachList 6 h' res).all (fun a => decide (5 ≤ a))
+                          && (reachList 6 h' res).length == 5
      | _ => false) = true ∧
     (match transfer (modeOf Generated.aliasing .construct) 9 (.keyed .root [("xs", .owned (.coll .array oneOpts))]) hetHeap (.ref 0) with
      | (h', some res) => sameBelow 5 hetHeap h' && (reachList 6 h' res).all (fun a => decide (5 ≤ a))
